@@ -517,7 +517,7 @@ def _guard_kind(an: Analysis, fn, call, kw_name, expr, depth=0):
                 reached = 0
                 for path in an.paths(ccallee):
                     for event in path.events:
-                        if event.node is ccall and event.kind == 'call':
+                        if event.node is ccall and event.kind in ('call', 'enter'):
                             reached += 1
                             good &= _future_fact(an, event.data.get('facts') or {}, text,
                                                  cfn, cowner)
